@@ -128,6 +128,25 @@ def decide(run, ob, family, op, params, ins, spec, k=10, timeout=60, drop=(), mo
         e.assoc_lemmas()
     except NotImplementedError as ex:
         return ob.set(INCONCLUSIVE, f"untranslatable: {ex}")
+    # ---- side obligations: lemmas the spec hands to the main query must be valid ----
+    if e.side:
+        t_side = time.time()
+        # group by identical declarations; each group is one query: (or (not L1) (not L2) ...) unsat
+        for i in range(0, len(e.side), 64):
+            chunk = e.side[i:i + 64]
+            parts = ["(set-logic ALL)"]
+            disj = []
+            for j, (nm, decls, body) in enumerate(chunk):
+                ren = lambda s_: s_.replace(" v ", f" v{j} ").replace("(v ", f"(v{j} ").replace(" v)", f" v{j})").replace(" b ", f" b{j} ").replace(" b)", f" b{j})").replace("(b ", f"(b{j} ")
+                for dcl in decls:
+                    parts.append(ren(dcl.replace("declare-const v ", f"declare-const v{j} ").replace("declare-const b ", f"declare-const b{j} ")))
+                disj.append(f"(not {ren(body)})")
+            parts.append("(assert (or false " + " ".join(disj) + "))")
+            rs = solvers.solve("\n".join(parts), timeout=timeout)
+            ob.queries += 1
+            ob.solver_s += rs.time_s
+            if rs.status != "unsat":
+                return ob.set(INCONCLUSIVE, f"a lemma supplied by the specification is not valid / not proved ({chunk[0][0]}..): {rs.status}")
     names = sorted(set(e.vars.values()))
     ob.sample = dict(op=op, params={k_: str(v)[:40] for k_, v in params.items()}, vars=len(names),
                      gates=len(d["gates"]), lookups=sum(len(l["inputs"]) for l in d["lookups"]))
